@@ -166,3 +166,21 @@ def rule_renderer_restores_size(ck, m, rid):
     if verdict is not None:
         ck.ob(rid, where, verdict, "_renderer must save `self._size` and restore a dynamic (Size) value in the `finally` of the try that encloses the render (rendering never turns a dynamic size into a fixed one, "
               "also when the render raises or is interrupted)", stmt="_renderer: dynamic size restored")
+
+
+def closed_stop(r):
+    """`raise StopIteration(...)` under `self._closed` (alone, or together with a test that the caught exception is the AttributeError of the
+    deleted generator), at the top of the function or in a handler that catches AttributeError."""
+    from tiv.astutil import ancestors as _anc, flatten_boolop, guards
+    if not (isinstance(r, ast.Raise) and r.exc is not None and "StopIteration" in norm(r.exc)):
+        return False
+    h = next((a_ for a_ in _anc(r) if isinstance(a_, ast.ExceptHandler)), None)
+    pos = [norm(v_) for t_, b_ in guards(r) if b_ for v_ in flatten_boolop(t_, ast.And)]
+    neg = [t_ for t_, b_ in guards(r) if not b_]
+    if "self._closed" not in pos or neg:
+        return False
+    others = [x for x in pos if x != "self._closed"]
+    if h is None:
+        return not others
+    catches = h.type is None or any(norm(e) in ("AttributeError", "Exception", "BaseException") for e in (h.type.elts if isinstance(h.type, ast.Tuple) else [h.type]))
+    return catches and all(h.name and x in (f"isinstance({h.name}, AttributeError)", f"type({h.name}) is AttributeError") for x in others)
